@@ -410,7 +410,7 @@ def check(env, rep, tier):
             hd = {f["name"]: i for i, f in enumerate(prog.adts["header::Header"]["variants"][0]["fields"])}
             mcv = [v["name"] for v in prog.adts["header::MessageClass"]["variants"]]
             rtv = [v["name"] for v in prog.adts["header::ResponseType"]["variants"]]
-            ok = {"version": bool(res), "type": bool(res), "code": bool(res), "mid": bool(res), "token": bool(res), "payload": bool(res)}
+            ok = {"version": bool(res), "type": bool(res), "code": bool(res), "mid": bool(res), "token": bool(res), "token-length": bool(res), "payload": bool(res)}
             for s, rv in res:
                 if not isinstance(rv, StructV):
                     ok = {k: False for k in ok}
@@ -435,6 +435,18 @@ def check(env, rep, tier):
                 tk = rv.fields[fidx["token"]]
                 if not (isinstance(tk, VecV) and tk.len == args[1].len and tk.tag == args[1].tag):
                     ok["token"] = False
+                # ... and the header announces it: the token-length nibble is the token's length (a header assigned after
+                # set_token carries 0 there, and the peer reads the token bytes as options)
+                tklbits = bits[:4] if bits else None
+                okl = False
+                if tklbits and isinstance(tk, VecV):
+                    if tk.len.is_const():
+                        okl = all(b == ((tk.len.c >> i) & 1) for i, b in enumerate(tklbits))
+                    else:
+                        sg_ = tk.len.single()
+                        okl = sg_ is not None and sg_[1] == 1 and sg_[2] == 0 and bitprov.field_of(tuple(tklbits), sg_[0]) == {0: 0, 1: 1, 2: 2, 3: 3}
+                if not okl:
+                    ok["token-length"] = False
                 pl = rv.fields[fidx["payload"]]
                 if not (isinstance(pl, VecV) and pl.len == args[3].len and pl.tag == args[3].tag):
                     ok["payload"] = False
